@@ -61,8 +61,12 @@ def case(ctx, idx, res):
                 continue
             if any(X.static_errors(a, xslt=False, namespaces=NS) for a in alts):
                 continue
-            rp = drv.call(cmd='match', doc=h, pattern=pat, ns='\n'.join('%s=%s' % kv for kv in NS.items()))
+            # half of the patterns are matched while an unrelated context node list is current (as inside apply-templates / for-each)
+            amb = {'ambient': str(r.choice([1, 2, 3]))} if r.random() < 0.5 else {}
+            rp = drv.call(cmd='match', doc=h, pattern=pat, ns='\n'.join('%s=%s' % kv for kv in NS.items()), **amb)
             res.evals += 1
+            if amb:
+                res.count('matched_under_ambient_context_list')
             if 'compile_error' in rp:
                 res.viol('pattern-rejected|' + C.skeleton(pat), 'the valid pattern %r is rejected: %s' % (pat, rp['compile_error'].decode()[:150]), {'pattern': pat})
                 continue
@@ -103,7 +107,7 @@ def case(ctx, idx, res):
                     al = X.parse_pattern(pp)
                 except X.XPathSyntaxError:
                     return False
-                r2 = drv.call(cmd='match', doc=h, pattern=pp, ns='\n'.join('%s=%s' % kv for kv in NS.items()))
+                r2 = drv.call(cmd='match', doc=h, pattern=pp, ns='\n'.join('%s=%s' % kv for kv in NS.items()), **amb)
                 if 'scores' not in r2:
                     return False
                 g2 = set(l.rsplit(' ', 1)[0] for l in r2['scores'].decode().split('\n') if l and not l.endswith(' none'))
